@@ -235,7 +235,9 @@ func TestC04(t *testing.T) {
 		for k := 0; k < ncl; k++ {
 			c := clause{result: 1000 + k}
 			n := arity()
-			if n == 0 && variadic { // a clause with no argument at all is "no condition", not a clause
+			if n == 0 && variadic && !(hasDefault || k > 0) {
+				// the very first When of a mocker with no argument at all is "no condition given", not a clause; on a
+				// stub that already exists When() is the clause "called without variadic elements"
 				n = 1
 			}
 			if variadic && !hasDefault && k == 0 && n < nfixed+1 {
